@@ -277,6 +277,7 @@ def execute(plan):
             return res
         v = res['violations']
         v += tdssim.o_rule_mirror(hist)
+        v += tdssim.o_solver_axb(hist)
         v += tdssim.o_acceptance(hist, ss)
         v += tdssim.o_reject_noop(hist)
         v += tdssim.o_continuity(hist)
